@@ -299,7 +299,7 @@ let lang_of_tree (t : Token.tok) (ps : string list) : string =
 
 let cls_text (t : Token.tok) : string =
   let b x = if x then 1 else 0 in
-  Printf.sprintf "closedvar=%d stable=%d rft=%d revrange=%d endsep=%d fnull=%d optrep=%d" (b (Fold.depth_closed_variant t)) (b (Spec.trees_stable t))
+  Printf.sprintf "exact=%d closedvar=%d stable=%d rft=%d revrange=%d endsep=%d fnull=%d optrep=%d" (b (Spec.trees_exact t)) (b (Fold.depth_closed_variant t)) (b (Spec.trees_stable t))
     (b (Spec.rooted_first_tree t)) (b (Spec.has_reversed_range t)) (b (Spec.may_end_sep t)) (b (Spec.fnull t))
     (b (Spec.has_optional_rep t))
 
